@@ -151,7 +151,19 @@ def r2(ctx, ty, m):
         ctx.undecided('C13.R2', site, 'unknown frontier discipline %s/%s' % (pops[0][1], pushes[0][1]), b.span)
         return None
     val = pushes[0][2][1]
-    reversed_ = has_call(val, 'Iterator::rev')
+    # the order of the *children* matters: a `rev()` elsewhere in the pushed value (a countdown zipped to the children) does not reverse them
+    child_e = agg_field(val, 'index') if (val[0] == 'agg' and isinstance(val[1], tuple) and val[1][1] == 'DfsNodeData') else None
+    reversed_ = has_call(child_e if child_e is not None else val, 'Iterator::rev')
+    if child_e is not None:
+        # rev() applied to the other partner of a zip is not a reversal of the children either
+        for x in walk(child_e):
+            if is_call(x, 'Iterator::zip', 'zip') and len(x[2]) == 2:
+                def is_range(y):
+                    y = y[2][0] if is_call(y, 'Iterator::rev') and y[2] else y
+                    return y[0] == 'agg' and isinstance(y[1], tuple) and y[1][:2] == ('adt', 'Range')
+                kids = [y for y in x[2] if not is_range(y) and (any(isinstance(z, tuple) and z[:1] == ('field',) and z[2] == 'children' for z in walk(y)) or has_call(y, 'TreeNode::children_iter'))]
+                if len(kids) == 1:
+                    reversed_ = has_call(kids[0], 'Iterator::rev')
     # the children sequence must be the children array of the popped node
     def popped_node(n):
         return is_call(n, 'Tree::tree_node') and any(is_call(y, pops[0][1]) for y in walk(n[2][1]))
@@ -207,6 +219,19 @@ def r2(ctx, ty, m):
                     pos_ok = enum_item(pos, '0') and s(pos[1]) == s(idx[1])
                     ok = cnt_ok and pos_ok and not reversed_
                     why = 'count-1-index over the forward child sequence' if ok else 'n_remaining is not count(children)-1-position'
+        if not ok:
+            # countdown zipped to the forward child sequence: zip(children, (0..count(children)).rev()) gives count-1-position
+            zi = idx[1] if idx[0] == 'field' else None
+            if zi is not None and is_call(zi, 'Iterator::next') and is_call(zi[2][0], 'Iterator::zip', 'zip') and nrem[0] == 'field' and s(nrem[1]) == s(zi) and nrem[2] != idx[2]:
+                parts = zi[2][0][2]
+                cd = parts[int(nrem[2])]
+                kidsq = parts[int(idx[2])]
+                rng_ = cd[2][0] if is_call(cd, 'Iterator::rev') else None
+                if rng_ is not None and rng_[0] == 'agg' and rng_[1][:2] == ('adt', 'Range') and rng_[2][0] == ('const', 0) and not has_call(kidsq, 'Iterator::rev'):
+                    hi = rng_[2][1]
+                    cnt_ok = (is_call(hi, 'Iterator::count') and s(hi[2][0]) == s(kidsq)) or is_call(hi, 'Tree::num_children', 'TreeNode::num_children')
+                    ok = cnt_ok and not reversed_
+                    why = 'countdown from count(children)-1 zipped to the forward child sequence' if ok else 'the countdown zipped to the children does not start at count(children)-1'
         if ok:
             ctx.ok('C13.R3', site3, why, b.where(pushes[0][0]))
         else:
@@ -269,6 +294,27 @@ def r4(ctx, ty, m, disc):
         # (an earlier `last_push = 0` that this write always overwrites is a dead store)
         ok = _len_difference(b, R, cfg, diffs[0], pushes)
         how = 'last_push := frontier length after the enqueues - frontier length between the pop and the enqueues'
+    elif len(ws) == 1 and len(pushes) == 1 and is_call(ws[0].value, 'Iterator::count', 'Tree::num_children', 'TreeNode::num_children'):
+        # third idiom: last_push := number of children of the popped node, where every child is enqueued: the enqueue sits in a loop over
+        # exactly the counted sequence and under no other condition; the write happens on every path that returns an item
+        w = ws[0]
+        pv = R.call_args(pushes[0])[1]
+        counted = w.value[2][0] if is_call(w.value, 'Iterator::count') else None
+        items = [x for x in walk(pv) if is_call(x, 'Iterator::next')]
+        src_same = False
+        for it in items:
+            src = it[2][0]
+            if is_call(src, 'Iterator::zip', 'zip'):
+                src_same = src_same or any(counted is not None and s(part) == s(counted) for part in src[2])
+            elif is_call(src, 'Iterator::enumerate') and counted is not None:
+                src_same = src_same or s(src[2][0]) == s(counted)
+            elif counted is not None:
+                src_same = src_same or s(src) == s(counted)
+        lits_p = [l for l in literals(b, R, pushes[0]) if not (l[0] == 'is' and is_call(l[1], 'Iterator::next', 'VecDeque::pop_front', 'Vec::pop', 'Tree::tree_node', 'Try::branch'))
+                  and not (l[0] in ('true', 'false') and l[1][0] == 'bin' and l[1][1] in ('Lt', 'Ge'))
+                  and not (l[0] == 'false' and l[1][0] == 'field' and l[1][2] == '1' and l[1][1][0] == 'bin' and l[1][1][1].endswith('WithOverflow'))]
+        ok = src_same and not lits_p and not any(cfg.reaches(p_, -1, avoid=[w.bb]) and False for p_ in pushes)
+        how = 'last_push := number of children of the popped node, each of which is enqueued'
     elif ok:
         inc_ok = all((w.value[0] == 'field' and w.value[1][0] == 'bin' and w.value[1][1].startswith('Add') and w.value[1][2] == ('field', ('param', 'self'), 'last_push') and w.value[1][3] == ('const', 1)) or
                      (w.value[0] == 'bin' and w.value[1].startswith('Add') and w.value[3] == ('const', 1)) for w in incs)
